@@ -238,17 +238,22 @@ def st_segment(ops, base_dir, clock, files_model):
                     if ds is None:
                         continue
                     is_coll = type(ds).__name__ == "MazeDatasetCollection"
+                    how = "serialize" if is_coll else op[3].get("how", "serialize")  # which of the library's formats goes to the file
                     if is_coll:
                         if any(len(m) == 0 and selected_minimal(m) for m in ds.maze_datasets):
                             continue
-                    elif skip_excluded(ds, "serialize"):
+                    elif skip_excluded(ds, how):
                         continue
                     before = full_model(ds)
                     p = os.path.join(base_dir, op[2])
                     z = ZANJ(external_array_threshold=op[3].get("external_array_threshold", 256), compress=op[3].get("compress", True))
-                    what = f"save({op[2]}) of {'collection' if is_coll else 'dataset'} len={len(ds)}"
+                    what = f"save({op[2]}, format={how}) of {'collection' if is_coll else 'dataset'} len={len(ds)}"
                     try:
-                        ds.save(p, zanj=z)
+                        if how == "serialize":
+                            ds.save(p, zanj=z)
+                        else:
+                            z.save(getattr(ds, {"full": "_serialize_full", "minimal": "_serialize_minimal", "soln_cat": "_serialize_minimal_soln_cat"}[how])(), p)
+                            bump("file_fmt_" + how)
                     except Exception as e:  # noqa: BLE001
                         key = _finding_key(ds, e)
                         return {"violation": ["C05.roundtrip-raised", f"{what} raised {type(e).__name__}: {str(e)[:200]}", key], "files": files, "events": events, "stats": stats}
@@ -357,7 +362,7 @@ def gen_history(rng: random.Random, tier: str) -> dict:
         elif r < 0.58:
             ops.append(["mem", rng.choice(slots), rng.choice(["serialize", "serialize", "full", "minimal", "soln_cat"])])
         elif r < 0.74:
-            ops.append(["save", rng.choice(slots), rng.choice(paths), {"compress": rng.random() < 0.6, "external_array_threshold": rng.choice([256, 16, 0])}])
+            ops.append(["save", rng.choice(slots), rng.choice(paths), {"compress": rng.random() < 0.6, "external_array_threshold": rng.choice([256, 16, 0]), "how": rng.choice(["serialize", "serialize", "serialize", "full", "minimal", "soln_cat"])}])
         elif r < 0.88:
             ops.append(["read", rng.choice(paths), rng.choice(["MazeDataset.read", "MazeDataset.read", "ZANJ.read"]), False])
         elif r < 0.94:
